@@ -6,6 +6,7 @@ import (
 	"strings"
 	"sync"
 	"testing"
+	"time"
 
 	"github.com/datastax/go-cassandra-native-protocol/message"
 	"github.com/datastax/go-cassandra-native-protocol/primitive"
@@ -88,6 +89,7 @@ func c07Check(c c07Case) *evid.Fail {
 			}
 		}
 		stallReset()
+		sentAt := time.Now()
 		if err := r.c.SendMsg(r.v, s, &message.Query{Query: "USE " + spelling, Options: &message.QueryOptions{Consistency: primitive.ConsistencyLevelOne}}, r.compress); err != nil {
 			return "", evid.Failf("harness-send", "%v", err)
 		}
@@ -116,6 +118,11 @@ func c07Check(c c07Case) *evid.Fail {
 		em, ok := b.Message.(message.Error)
 		if !ok {
 			return "", evid.Failf("failed-use-accepted:"+useClass(spelling), "client %d: USE %s of a keyspace that does not exist answered with %v", ci, spelling, b.Message)
+		}
+		if !strings.Contains(em.GetErrorMessage(), "does not exist") && time.Since(sentAt) > 4*time.Second {
+			// the proxy gave up connecting (5 s connect timeout) before any backend answered: on this machine, now,
+			// that is the machine's doing, and there is no backend error to relay
+			return "", evid.Failf("harness-stall", "client %d: USE %s took %v and failed with %q", ci, spelling, time.Since(sentAt), em.GetErrorMessage())
 		}
 		if !strings.Contains(em.GetErrorMessage(), "does not exist") {
 			return "", evid.Failf("failed-use-message", "client %d: USE %s failed with %q instead of the backend's error", ci, spelling, em.GetErrorMessage())
@@ -152,7 +159,9 @@ func c07Check(c c07Case) *evid.Fail {
 			wg.Wait()
 			for k, ci := range a.Clients {
 				if fails[k] != nil {
-					fails[k].Sig = "parallel:" + fails[k].Sig
+					if fails[k].Sig != "harness-stall" {
+						fails[k].Sig = "parallel:" + fails[k].Sig
+					}
 					return fails[k]
 				}
 				model[ci] = nks[k]
